@@ -500,7 +500,7 @@ class Mp4Atom(ObjectWithFields):
                 return parent
             return rv
         cur_pos = src.tell()
-        for item in deferred_boxes:
+        for offset, item in enumerate(deferred_boxes):
             options.log.debug('Parsing deferred box: "%s"',
                               item['initial_data']['atom_type'])
             hdr = item['initial_data']
@@ -512,12 +512,13 @@ class Mp4Atom(ObjectWithFields):
             kwargs['options'] = options
             new_atom = Box(**kwargs)
             new_atom.payload_start = src.tell()
-            if atom.parse_children:
+            if new_atom.parse_children:
                 options.log.debug('Parse %s children', new_atom.atom_type)
                 Mp4Atom.load(src, new_atom, options)
             options.log.debug('finished parsing of deferred "%s"',
                               new_atom.atom_type)
-            rv.insert(item['index'], new_atom)
+            # each deferred box that has already been put back sits before this one
+            rv.insert(item['index'] + offset, new_atom)
         src.seek(cur_pos)
         if use_wrapper:
             return parent
